@@ -2043,9 +2043,17 @@ static bool is_const_expr(Node *node) {
   case ND_NE:
   case ND_LT:
   case ND_LE:
-  case ND_LOGAND:
-  case ND_LOGOR:
     return is_const_expr(node->lhs) && is_const_expr(node->rhs);
+  case ND_LOGAND:
+    // Only the operands that are evaluated have to be constant and
+    // are looked at [https://www.sigbus.info/n1570#6.6p3].
+    if (!is_const_expr(node->lhs))
+      return false;
+    return !eval_truth(node->lhs) || is_const_expr(node->rhs);
+  case ND_LOGOR:
+    if (!is_const_expr(node->lhs))
+      return false;
+    return eval_truth(node->lhs) || is_const_expr(node->rhs);
   case ND_COND:
     if (!is_const_expr(node->cond))
       return false;
